@@ -113,6 +113,7 @@ def units(tier):
     u = [["L", cls, call] for cls in T.CLASSES for call in T.CALLABLES[cls]]
     u.append(["T"])
     u.append(["P"])
+    u.append(["NOISE"])
     u += [["H", i] for i in range(len(hist_pool()))]
     return u
 
@@ -130,6 +131,17 @@ def run_unit(unit, tier):
                     check_case(res, t, {k: v}, key=(cls, call, ti, ki, vi))
             if ti == 0:
                 res.sample({"term": t, "spec": {keys[-1]: vals[-1]}})
+    elif unit[0] == "NOISE":
+        # malformed / unusual specs first (all rejected or accepted, exceptions swallowed), then the whole history pool and
+        # the data-path argument cases must still parse to the DSL-built conditions
+        from mc.noise import make_noise
+        res.count("transitions", make_noise())
+        for j, (t, s) in enumerate(hist_pool()):
+            check_case(res, t, s, key=("NOISE", j), before=["<noise>"])
+        for cls in ("Value", "Key", "ValueLength"):
+            for t in leaf_terms(cls, "equal_to_approx", "thorough") + leaf_terms(cls, "in_range", "quick"):
+                for v in S.value_spellings(t, False):
+                    check_case(res, t, {S.key_spellings(cls, t[2], full=False)[0]: v}, key=("NOISE", cls, repr(t), repr(v)), before=["<noise>"])
     elif unit[0] == "P":
         # data-path arguments in every argument position, keyword-mapping and positional-list spellings
         for i, (t, spec) in enumerate(path_arg_cases()):
@@ -188,6 +200,10 @@ def check_case(res, t, spec, key, before=None, replaying=False):
     if before:
         case["before"] = before
         if replaying:   # re-create the history: the specs parsed before this one
+            if before == ["<noise>"]:
+                from mc.noise import make_noise
+                make_noise()
+                before = []
             for b in before:
                 try:
                     ConditionLike.from_spec(fresh_spec(b))
